@@ -97,6 +97,11 @@ enum Sub
     D_HISTORY,           // data member: a scripted history of dynamic-array operations (rq.dops); arg: how the view is obtained (0 named, 1 by tag, 2 cursor init, 3 by tag + cursor init)
     G_INFO,              // group: address + numInGroup as the view reports it
     D_INFO,              // data: address + length and payload hash as the view reports them
+    A_ASSIGN_STRING_MODE,  // arrays: assign_string(const char*, eos_null) - arg: length, arg2: 0 all, 1 single, 2 none
+    A_ASSIGN_STRING_RANGE, // arrays: assign_string(range, eos_null) - same arguments
+    A_ASSIGN_ITER,         // arrays: assign(first, last) with arg elements
+    A_ASSIGN_IL,           // arrays: assign({v, v+1}) (arrays of at least two elements)
+    A_PARTIAL_FILL,        // arrays: assign(count, value) with count = arg <= N
     SUB_COUNT
 };
 
